@@ -33,6 +33,9 @@ def units(tier):
     for gid, sid in [("tric2", "211"), ("cscl", "211"), ("bccI", "111"), ("tet2", "111"), ("hex2", "111"), ("tric2", "311"), ("nacl8i", "111"), ("cscl", "nd8")]:
         u.append(("basic", gid, sid, False))
     u.append(("basic", "tric2", "211", True))
+    for gid, sid in [("tric2", "211"), ("cscl", "nd8"), ("hex2", "111")]:
+        u.append(("basic-sparse", gid, sid, False))
+    u.append(("point_group-sparse", "tet2", "111", False))
     for gid, sid in [("cscl", "111"), ("tet2", "111"), ("hex2", "111"), ("cscl", "211"), ("bccI", "111")]:
         u.append(("point_group", gid, sid, False))
     for gid, sid in [("tric2", "211"), ("cscl", "311"), ("nacl8i", "111")]:
@@ -58,7 +61,9 @@ def run_unit(u):
     kind, gid, sid, compact = u
     res = Result("/".join(str(x) for x in u))
     ctx = harness.setup()
-    case = DMCase(gid, sid)
+    dense = not kind.endswith("-sparse")          # the deprecated but supported sparse shortest-vector layout (store_dense_svecs=False)
+    kind = kind.replace("-sparse", "")
+    case = DMCase(gid, sid, dense=dense)
     br = bridge.Bridge(ctx.shim, ctx.ir)
     br.install()
     try:
